@@ -4,10 +4,10 @@ package main
 import (
 	"fmt"
 	"os"
-	"strings"
 	"runtime/debug"
 	"runtime/pprof"
 	"sort"
+	"strings"
 
 	"verif/mc/report"
 )
